@@ -258,7 +258,10 @@ theorem normPath_step (cmp : Tree → Tree → Ordering) (fuel : Nat) (a v : Boo
       | some (.sortList rest l) =>
         match mapE (fun t => (normPath cmp fuel false false t.path).map Tree.mk) l with
         | .error e => .error e
-        | .ok l => .ok (rest ++ [.list (stableSort cmp l)]) := by
+        | .ok l' =>
+          if (l'.filter (fun t => !t.path.isEmpty)).length < l.length then
+            normPath cmp fuel a v (rest ++ [.list (stableSort cmp (l'.filter (fun t => !t.path.isEmpty)))])
+          else .ok (rest ++ [.list (stableSort cmp (l'.filter (fun t => !t.path.isEmpty)))]) := by
   rw [normPath]
   unfold normStep
   cases hl : path.getLast? with
@@ -370,13 +373,24 @@ theorem innerOK_plain_or {r : Bool} {s : Seg} (h : innerOK r s = true) :
 theorem exists_snoc_of_ne {α} {l : List α} (h : l ≠ []) : ∃ init x, l = init ++ [x] :=
   ⟨l.dropLast, l.getLast h, (List.dropLast_concat_getLast h).symm⟩
 
+theorem wfPath_snoc {r : Bool} {rest : List Seg} {last : Seg} (h : wfPath r (rest ++ [last]) = true) :
+    innerAll r rest = true ∧ wfLast (r && rest.isEmpty) last = true := by
+  rw [wfPath_append _ _ _ (by simp), wfPath_single, Bool.and_eq_true] at h
+  exact h
+
+theorem wfLast_list_mem {r : Bool} {l : List Tree} (h : wfLast r (.list l) = true) :
+    ∀ t ∈ l, t.path ≠ [] ∧ wfPath r t.path = true := by
+  intro t ht
+  simp only [wfLast] at h
+  exact wfTree_path (wfTrees_mem h t ht)
+
 /-- The result of a non-recursive step is a fixed point of the step, unless it is empty or the bare
 `self` that the next call deletes. -/
 theorem normStep_done_fixed {a v r : Bool} {path q : List Seg} (h : normStep a v path = some (.done q))
-    (hok : okPath r path = true) (hne : q ≠ [])
+    (hwf : wfPath r path = true) (hne : q ≠ [])
     (hbare : ¬(a = false ∧ v = true ∧ q = [.slf none])) : normStep a v q = some (.done q) := by
   obtain ⟨rest, last, rfl⟩ := normStep_some_snoc h
-  obtain ⟨hin, hl⟩ := okPath_snoc hok
+  obtain ⟨hin, hl⟩ := wfPath_snoc hwf
   cases last with
   | list l =>
     rw [normStep_list] at h
@@ -593,6 +607,124 @@ theorem normStep_sortList_of (a v : Bool) (rest : List Seg) (l : List Tree) (hne
   simp [this]
 
 
+/-! The same three facts from well-formedness alone (`{}` allowed anywhere). -/
+
+/-- The result of a non-recursive step has no nested tree with an empty path. -/
+theorem normStep_done_ne_wf {a v r : Bool} {path q : List Seg} (h : normStep a v path = some (.done q))
+    (hwf : wfPath r path = true) : nePath q = true := by
+  obtain ⟨rest, last, rfl⟩ := normStep_some_snoc h
+  obtain ⟨hin, hl⟩ := wfPath_snoc hwf
+  have hnr := innerAll_nePath hin
+  have plain : ∀ s, plainSeg s = true → normStep a v (rest ++ [s]) = some (.done q) → nePath q = true := by
+    intro s hs h
+    rw [normStep_plain a v rest _ hs] at h
+    simp only [Option.some.injEq, Step.done.injEq] at h; subst h
+    rw [nePath_append, hnr]
+    cases s <;> simp_all [plainSeg, nePath, neSeg]
+  cases last with
+  | list l =>
+    rw [normStep_list] at h
+    split at h
+    · simp only [Option.some.injEq, Step.done.injEq] at h; subst h; rfl
+    · split at h <;> simp at h
+  | slf al =>
+    cases al with
+    | none =>
+      rw [normStep_slfNone] at h
+      split at h
+      · split at h
+        · simp only [Option.some.injEq, Step.done.injEq] at h; subst h; rfl
+        · simp only [Option.some.injEq, Step.done.injEq] at h; subst h; rfl
+      · simp only [Option.some.injEq, Step.done.injEq] at h; subst h
+        exact hnr
+    | some rn =>
+      rw [normStep_slfSome] at h
+      split at h
+      · rename_i n hg
+        simp only [Option.some.injEq, Step.done.injEq] at h; subst h
+        have hp := eq_dropLast_append hg
+        rw [hp, nePath_append, Bool.and_eq_true] at hnr
+        rw [nePath_append, hnr.1]; rfl
+      · simp only [Option.some.injEq, Step.done.injEq] at h; subst h
+        rw [nePath_append, hnr]; rfl
+  | ident n al => exact plain _ rfl h
+  | super al => exact plain _ rfl h
+  | crate al => exact plain _ rfl h
+  | glob => exact plain _ rfl h
+
+theorem normStep_splice_wf {a v r : Bool} {path p : List Seg}
+    (h : normStep a v path = some (.splice p)) (hwf : wfPath r path = true) : wfPath r p = true := by
+  obtain ⟨rest, last, rfl⟩ := normStep_some_snoc h
+  obtain ⟨hin, hl⟩ := wfPath_snoc hwf
+  cases last with
+  | list l =>
+    rw [normStep_list] at h
+    split at h
+    · simp at h
+    · split at h
+      · rename_i t ht
+        simp only [Option.some.injEq, Step.splice.injEq] at h; subst h
+        obtain ⟨rfl, _⟩ := soleSplice_some ht
+        obtain ⟨htne, htwf⟩ := wfLast_list_mem hl t (by simp)
+        rw [wfPath_append r rest t.path htne, hin, htwf]; rfl
+      · simp at h
+  | slf al =>
+    cases al with
+    | none => rw [normStep_slfNone] at h; split at h <;> (try split at h) <;> simp at h
+    | some rn => rw [normStep_slfSome] at h; split at h <;> simp at h
+  | ident n al => rw [normStep_plain a v rest _ rfl] at h; simp at h
+  | super al => rw [normStep_plain a v rest _ rfl] at h; simp at h
+  | crate al => rw [normStep_plain a v rest _ rfl] at h; simp at h
+  | glob => rw [normStep_plain a v rest _ rfl] at h; simp at h
+
+theorem normStep_sortList_wf {a v r : Bool} {path rest : List Seg} {l : List Tree}
+    (h : normStep a v path = some (.sortList rest l)) (hwf : wfPath r path = true) :
+    path = rest ++ [.list l] ∧ innerAll r rest = true ∧ wfLast (r && rest.isEmpty) (.list l) = true ∧
+      soleSplice l = none ∧ (!a && l.isEmpty) = false := by
+  obtain ⟨rest', last, rfl⟩ := normStep_some_snoc h
+  obtain ⟨hin, hl⟩ := wfPath_snoc hwf
+  cases last with
+  | list l' =>
+    rw [normStep_list] at h
+    split at h
+    · simp at h
+    · rename_i hc
+      split at h
+      · simp at h
+      · rename_i hs
+        simp only [Option.some.injEq, Step.sortList.injEq] at h
+        obtain ⟨rfl, rfl⟩ := h
+        exact ⟨rfl, hin, hl, hs, by simpa using hc⟩
+  | slf al =>
+    cases al with
+    | none => rw [normStep_slfNone] at h; split at h <;> (try split at h) <;> simp at h
+    | some rn => rw [normStep_slfSome] at h; split at h <;> simp at h
+  | ident n al => rw [normStep_plain a v rest' _ rfl] at h; simp at h
+  | super al => rw [normStep_plain a v rest' _ rfl] at h; simp at h
+  | crate al => rw [normStep_plain a v rest' _ rfl] at h; simp at h
+  | glob => rw [normStep_plain a v rest' _ rfl] at h; simp at h
+
+theorem normStep_sortList_of' (a v : Bool) (rest : List Seg) (l : List Tree)
+    (hc : (!a && l.isEmpty) = false) (hs : soleSplice l = none) :
+    normStep a v (rest ++ [.list l]) = some (.sortList rest l) := by
+  rw [normStep_list, hs]
+  simp [hc]
+
+theorem filter_eq_self_of_length {α} (p : α → Bool) : ∀ (l : List α),
+    ¬ (l.filter p).length < l.length → l.filter p = l
+  | [], _ => rfl
+  | x :: l, h => by
+    have hle := List.length_filter_le p l
+    simp only [List.filter_cons] at h ⊢
+    split
+    · rename_i hx
+      simp only [hx, if_true, List.length_cons] at h
+      rw [filter_eq_self_of_length p l (by omega)]
+    · rename_i hx
+      simp only [hx, List.length_cons] at h
+      simp at h
+      omega
+
 theorem mapE_mem {α β ε} (f : α → Except ε β) : ∀ (l : List α) (l' : List β), mapE f l = .ok l' →
     ∀ b ∈ l', ∃ a ∈ l, f a = .ok b
   | [], l', h, b, hb => by simp [mapE] at h; subst h; simp at hb
@@ -672,15 +804,16 @@ theorem normPath_displaysSelf (cmp : Tree → Tree → Ordering) {fuel : Nat} {t
       simp at h; exact h.symm
     · simp at hd
 
+/-- The result of `normalize` has no nested tree with an empty path (an element normalised to the
+empty path is removed from its list): for every path as the parser builds it, `{}` included. -/
 theorem normPath_ne (cmp : Tree → Tree → Ordering) :
     ∀ (fuel : Nat) (a v : Bool) (path q : List Seg) (r : Bool),
-      normPath cmp fuel a v path = .ok q → okPath r path = true →
-      nePath q = true ∧ (v = false → q ≠ []) := by
+      normPath cmp fuel a v path = .ok q → wfPath r path = true → nePath q = true := by
   intro fuel
   induction fuel with
   | zero => intro _ _ _ _ _ h; simp [normPath] at h
   | succ fuel ih =>
-    intro a v path q r h hok
+    intro a v path q r h hwf
     rw [normPath_step] at h
     cases hs : normStep a v path with
     | none => simp [hs] at h
@@ -688,106 +821,127 @@ theorem normPath_ne (cmp : Tree → Tree → Ordering) :
       cases st with
       | done q' =>
         simp only [hs, Except.ok.injEq] at h; subst h
-        exact normStep_done_ne hs hok
+        exact normStep_done_ne_wf hs hwf
       | splice p =>
         simp only [hs] at h
-        exact ih a v p q r h (normStep_splice_ok hs hok)
+        exact ih a v p q r h (normStep_splice_wf hs hwf)
       | sortList rest l =>
         simp only [hs] at h
-        obtain ⟨rfl, hin, _, _, hel⟩ := normStep_sortList_spec hs hok
+        obtain ⟨rfl, hin, hwl, _, _⟩ := normStep_sortList_wf hs hwf
         split at h
         · simp at h
         · rename_i l2 hl2
-          simp only [Except.ok.injEq] at h; subst h
-          refine ⟨?_, fun _ => by simp⟩
-          rw [nePath_append, innerAll_nePath hin]
-          simp only [nePath, neSeg, Bool.and_true, Bool.true_and]
-          rw [neTrees_iff]
-          intro t ht
-          have ht2 : t ∈ l2 := (stableSort_perm cmp l2).mem_iff.1 ht
-          obtain ⟨t0, ht0, hf⟩ := mapE_mem _ _ _ hl2 t ht2
-          obtain ⟨qt, hqt, rfl⟩ := except_map_ok hf
-          obtain ⟨h1, h2⟩ := ih false false t0.path qt _ hqt (hel t0 ht0).2
-          rw [neTree_iff]
-          exact ⟨h2 rfl, h1⟩
+          have hnorm := norm_list_wf cmp fuel r rest l l2 hin hwl hl2
+          split at h
+          · exact ih _ _ _ _ r h hnorm
+          · simp only [Except.ok.injEq] at h; subst h
+            rw [nePath_append, innerAll_nePath hin]
+            simp only [nePath, neSeg, Bool.and_true, Bool.true_and]
+            rw [neTrees_iff]
+            intro t ht
+            obtain ⟨htl, htne⟩ := mem_sorted_kept ht
+            obtain ⟨t0, ht0, hf⟩ := mapE_mem _ _ _ hl2 t htl
+            obtain ⟨qt, hqt, rfl⟩ := except_map_ok hf
+            rw [neTree_iff]
+            exact ⟨htne, ih false false t0.path qt _ hqt (wfLast_list_mem hwl t0 ht0).2⟩
 
 theorem pathSize_snoc_list (rest : List Seg) (l : List Tree) :
     pathSize (rest ++ [.list l]) = pathSize rest + (1 + treesSize l) := by
   rw [pathSize_append]; simp [pathSize, segSize]
 
-/-- `normalize` is idempotent: on a well-formed path without `{}` the result, unless it is empty or the
+/-- `normalize` is idempotent: on every path as the parser builds it (`{}` allowed anywhere: an element
+that imports nothing is removed and the tree normalised again) the result, unless it is empty or the
 bare `self` that is deleted next time, is returned unchanged by a second call (with any fuel above its
 size). -/
 theorem normPath_idem {cmp : Tree → Tree → Ordering} (tp : TotalPreorder cmp) :
     ∀ (fuel : Nat) (a v : Bool) (path q : List Seg) (r : Bool),
-      normPath cmp fuel a v path = .ok q → okPath r path = true → q ≠ [] →
+      normPath cmp fuel a v path = .ok q → wfPath r path = true → q ≠ [] →
       ¬(a = false ∧ v = true ∧ q = [.slf none]) →
       ∀ fuel2, pathSize q < fuel2 → normPath cmp fuel2 a v q = .ok q := by
   intro fuel
   induction fuel with
   | zero => intro _ _ _ _ _ h; simp [normPath] at h
   | succ fuel ih =>
-    intro a v path q r h hok hne hbare fuel2 hf2
-    obtain ⟨f2, rfl⟩ : ∃ f2, fuel2 = f2 + 1 := ⟨fuel2 - 1, by omega⟩
+    intro a v path q r h hwf hne hbare fuel2 hf2
     rw [normPath_step] at h
     cases hs : normStep a v path with
     | none => simp [hs] at h
     | some st =>
       cases st with
       | done q' =>
+        obtain ⟨f2, rfl⟩ : ∃ f2, fuel2 = f2 + 1 := ⟨fuel2 - 1, by omega⟩
         simp only [hs, Except.ok.injEq] at h; subst h
-        rw [normPath_step, normStep_done_fixed hs hok hne hbare]
+        rw [normPath_step, normStep_done_fixed hs hwf hne hbare]
       | splice p =>
         simp only [hs] at h
-        exact ih a v p q r h (normStep_splice_ok hs hok) hne hbare _ hf2
+        exact ih a v p q r h (normStep_splice_wf hs hwf) hne hbare _ hf2
       | sortList rest l =>
         simp only [hs] at h
-        obtain ⟨rfl, hin, hsole, hlne, hel⟩ := normStep_sortList_spec hs hok
+        obtain ⟨rfl, hin, hwl, hsole, hc⟩ := normStep_sortList_wf hs hwf
         split at h
         · simp at h
         · rename_i l2 hl2
-          simp only [Except.ok.injEq] at h; subst h
-          have hperm := stableSort_perm cmp l2
-          have hlen : (stableSort cmp l2).length = l.length := by
-            rw [hperm.length_eq, mapE_length _ _ _ hl2]
-          have hne' : stableSort cmp l2 ≠ [] := by
-            intro e; rw [e] at hlen
-            exact hlne (List.length_eq_zero_iff.1 hlen.symm)
-          have hsole' : soleSplice (stableSort cmp l2) = none := by
-            rcases soleSplice_none_cases hsole with hl1 | ⟨t, rfl, hd⟩
-            · exact soleSplice_none_of_length (by rw [hlen]; exact hl1)
-            · -- l = [t], displays self: unchanged
-              simp only [mapE] at hl2
-              split at hl2
-              · simp at hl2
-              · rename_i b hb
-                simp only [Except.ok.injEq] at hl2; subst hl2
-                obtain ⟨qt, hqt, rfl⟩ := except_map_ok hb
-                have := normPath_displaysSelf cmp hd hqt
-                subst this
-                obtain ⟨p⟩ := t
-                simpa [stableSort, insertSorted, soleSplice, RF.Imports.Tree.path] using hd
-          rw [normPath_step, normStep_sortList_of a v rest _ hne' hsole']
-          simp only []
-          have hfix : mapE (fun t => (normPath cmp f2 false false t.path).map Tree.mk)
-              (stableSort cmp l2) = .ok (stableSort cmp l2) := by
-            apply mapE_fixed
-            intro t ht
-            have ht2 : t ∈ l2 := hperm.mem_iff.1 ht
-            obtain ⟨t0, ht0, hf⟩ := mapE_mem _ _ _ hl2 t ht2
-            obtain ⟨qt, hqt, rfl⟩ := except_map_ok hf
-            have hqne := (normPath_ne cmp _ _ _ _ _ _ hqt (hel t0 ht0).2).2 rfl
-            have hsz : pathSize qt < f2 := by
-              have h1 := treeSize_le_of_mem ht
-              rw [treeSize_eq] at h1
-              rw [pathSize_snoc_list] at hf2
-              simp only [RF.Imports.Tree.path] at h1
-              omega
-            have := ih false false t0.path qt _ hqt (hel t0 ht0).2 hqne (by simp) f2 hsz
-            simp only [RF.Imports.Tree.path, this, Except.map]
-          rw [hfix]
-          simp only []
-          rw [stableSort_idem tp]
+          have hnorm := norm_list_wf cmp fuel r rest l l2 hin hwl hl2
+          split at h
+          · -- an element was removed: the shorter tree was normalised again
+            exact ih _ _ _ _ r h hnorm hne hbare _ hf2
+          · rename_i hlt
+            obtain ⟨f2, rfl⟩ : ∃ f2, fuel2 = f2 + 1 := ⟨fuel2 - 1, by omega⟩
+            simp only [Except.ok.injEq] at h; subst h
+            have hlen2 := mapE_length _ _ _ hl2
+            have hK : l2.filter (fun t => !t.path.isEmpty) = l2 :=
+              filter_eq_self_of_length _ l2 (by rw [hlen2]; exact hlt)
+            rw [hK] at hf2 ⊢
+            have hKall : ∀ t ∈ l2, t.path ≠ [] := by
+              intro t ht
+              have := (List.filter_eq_self.1 hK) t ht
+              simpa using this
+            have hperm := stableSort_perm cmp l2
+            have hlen : (stableSort cmp l2).length = l.length := by
+              rw [hperm.length_eq, hlen2]
+            have hc' : (!a && (stableSort cmp l2).isEmpty) = false := by
+              have : (stableSort cmp l2).isEmpty = l.isEmpty := by
+                rw [Bool.eq_iff_iff]; simp only [List.isEmpty_iff, ← List.length_eq_zero_iff, hlen]
+              rw [this]; exact hc
+            have hsole' : soleSplice (stableSort cmp l2) = none := by
+              rcases soleSplice_none_cases hsole with hl1 | ⟨t, rfl, hd⟩
+              · exact soleSplice_none_of_length (by rw [hlen]; exact hl1)
+              · -- l = [t], displays self: unchanged
+                simp only [mapE] at hl2
+                split at hl2
+                · simp at hl2
+                · rename_i b hb
+                  simp only [Except.ok.injEq] at hl2; subst hl2
+                  obtain ⟨qt, hqt, rfl⟩ := except_map_ok hb
+                  have := normPath_displaysSelf cmp hd hqt
+                  subst this
+                  obtain ⟨p⟩ := t
+                  simpa [stableSort, insertSorted, soleSplice, RF.Imports.Tree.path] using hd
+            rw [normPath_step, normStep_sortList_of' a v rest _ hc' hsole']
+            simp only []
+            have hfix : mapE (fun t => (normPath cmp f2 false false t.path).map Tree.mk)
+                (stableSort cmp l2) = .ok (stableSort cmp l2) := by
+              apply mapE_fixed
+              intro t ht
+              have ht2 : t ∈ l2 := hperm.mem_iff.1 ht
+              obtain ⟨t0, ht0, hf⟩ := mapE_mem _ _ _ hl2 t ht2
+              obtain ⟨qt, hqt, rfl⟩ := except_map_ok hf
+              have hqne : qt ≠ [] := by simpa [RF.Imports.Tree.path] using hKall _ ht2
+              have hsz : pathSize qt < f2 := by
+                have h1 := treeSize_le_of_mem ht
+                rw [treeSize_eq] at h1
+                rw [pathSize_snoc_list] at hf2
+                simp only [RF.Imports.Tree.path] at h1
+                omega
+              have := ih false false t0.path qt _ hqt (wfLast_list_mem hwl t0 ht0).2 hqne (by simp) f2 hsz
+              simp only [RF.Imports.Tree.path, this, Except.map]
+            rw [hfix]
+            simp only []
+            have hS : (stableSort cmp l2).filter (fun t => !t.path.isEmpty) = stableSort cmp l2 := by
+              apply List.filter_eq_self.2
+              intro t ht
+              simpa using hKall t (hperm.mem_iff.1 ht)
+            rw [hS, if_neg (Nat.lt_irrefl _), stableSort_idem tp]
 
 
 /-! ## `flatten`, `nest_trailing_self`, `Item` granularity -/
@@ -914,16 +1068,78 @@ theorem flattenItem_nest_fixed (g : Granularity) (x : Item) (h : FlatItem x) :
       simp [hf]
     · rfl
 
-theorem uniqueByPath_idem : ∀ (xs seen : List Item),
-    uniqueByPath (uniqueByPath xs seen) seen = uniqueByPath xs seen
-  | [], _ => rfl
-  | t :: ts, seen => by
-    simp only [uniqueByPath]
+/-! ### the de-duplication of `flatten_use_trees` (`is_repeated_by`) -/
+
+theorem sameVis_comm (a b : Option (List Char)) : sameVis a b = sameVis b a := by
+  cases a <;> cases b <;> simp only [sameVis]
+  rw [Bool.eq_iff_iff]; simp only [beq_iff_eq]; exact eq_comm
+
+theorem treeBEq_comm (a b : Tree) : treeBEq a b = treeBEq b a := by
+  rw [Bool.eq_iff_iff, treeBEq_iff, treeBEq_iff]; exact eq_comm
+
+/-- `is_repeated_by` is symmetric. -/
+theorem isRepeatedBy_comm (s t : Item) : isRepeatedBy s t = isRepeatedBy t s := by
+  simp only [isRepeatedBy, treeBEq_comm s.tree t.tree, sameVis_comm s.vis t.vis]
+  generalize treeBEq t.tree s.tree = b1
+  generalize sameVis t.vis s.vis = b2
+  generalize s.attrs.isNone = b3
+  generalize t.attrs.isNone = b4
+  generalize s.hasComment = b5
+  generalize t.hasComment = b6
+  cases b1 <;> cases b2 <;> cases b3 <;> cases b4 <;> cases b5 <;> cases b6 <;> rfl
+
+/-- Neither import repeats the other. -/
+def NoRep (a b : Item) : Prop := isRepeatedBy a b = false
+
+theorem NoRep.symm {a b : Item} (h : NoRep a b) : NoRep b a := by
+  unfold NoRep at h ⊢; rw [isRepeatedBy_comm]; exact h
+
+/-- What `flatten_use_trees` keeps is pairwise not repeated. -/
+theorem dedupItems_pairwise : ∀ (xs res : List Item), res.Pairwise NoRep →
+    (dedupItems xs res).Pairwise NoRep
+  | [], _, h => by simpa only [dedupItems] using h
+  | t :: ts, res, h => by
+    simp only [dedupItems]
     split
-    · exact uniqueByPath_idem ts seen
-    · rename_i h
-      simp only [uniqueByPath, h]
-      simp [uniqueByPath_idem ts (seen ++ [t])]
+    · exact dedupItems_pairwise ts res h
+    · rename_i hn
+      apply dedupItems_pairwise ts
+      rw [List.pairwise_append]
+      refine ⟨h, by simp, ?_⟩
+      intro a ha b hb
+      simp only [List.mem_singleton] at hb; subst hb
+      simp only [List.any_eq_true, not_exists, not_and, Bool.not_eq_true] at hn
+      exact hn a ha
+
+/-- A list without repeated imports passes the loop of `flatten_use_trees` unchanged. -/
+theorem dedupItems_of_pairwise : ∀ (l res : List Item), (res ++ l).Pairwise NoRep →
+    dedupItems l res = res ++ l
+  | [], res, _ => by simp [dedupItems]
+  | t :: ts, res, h => by
+    have hnot : (res.any fun s => isRepeatedBy s t) = false := by
+      rw [List.pairwise_append] at h
+      cases hh : (res.any fun s => isRepeatedBy s t) with
+      | false => rfl
+      | true =>
+        simp only [List.any_eq_true] at hh
+        obtain ⟨s, hs, he⟩ := hh
+        have := h.2.2 s hs t (by simp)
+        unfold NoRep at this
+        rw [this] at he; cases he
+    simp only [dedupItems, hnot]
+    rw [dedupItems_of_pairwise ts (res ++ [t]) (by simpa using h)]
+    simp
+
+theorem dedupItems_idem (xs : List Item) : dedupItems (dedupItems xs []) [] = dedupItems xs [] := by
+  have := dedupItems_of_pairwise (dedupItems xs []) []
+    (by simpa using dedupItems_pairwise xs [] List.Pairwise.nil)
+  simpa using this
+
+theorem dedupItems_nil_sub (xs : List Item) : ∀ x ∈ dedupItems xs [], x ∈ xs := by
+  intro x hx
+  rcases dedupItems_sub xs [] x hx with h | h
+  · simp at h
+  · exact h
 
 theorem flatMap_singleton_of {α} (f : α → List α) : ∀ (l : List α), (∀ a ∈ l, f a = [a]) → l.flatMap f = l
   | [], _ => rfl
@@ -936,7 +1152,7 @@ theorem flattenUseTrees_idem (g : Granularity) (its : List Item)
     flattenUseTrees g (flattenUseTrees g its) = flattenUseTrees g its := by
   have hF : ∀ y ∈ flattenUseTrees g its, flattenItem g y = [y] ∧ nestItem y = y := by
     intro y hy
-    have := uniqueByPath_sub _ _ y hy
+    have := dedupItems_nil_sub _ y hy
     simp only [List.mem_map, List.mem_flatMap] at this
     obtain ⟨x, ⟨it, hit, hx⟩, rfl⟩ := this
     exact ⟨flattenItem_nest_fixed g x (flattenItem_flat g it (hwf it hit) x hx), nestItem_idem x⟩
@@ -945,10 +1161,10 @@ theorem flattenUseTrees_idem (g : Granularity) (its : List Item)
   have h2 : (flattenUseTrees g its).map nestItem = flattenUseTrees g its := by
     rw [List.map_congr_left (fun y hy => (hF y hy).2)]; simp
   generalize hFd : flattenUseTrees g its = F at h1 h2
-  have : flattenUseTrees g F = uniqueByPath ((F.flatMap (flattenItem g)).map nestItem) [] := rfl
+  have : flattenUseTrees g F = dedupItems ((F.flatMap (flattenItem g)).map nestItem) [] := rfl
   rw [this, h1, h2, ← hFd]
   unfold flattenUseTrees
-  exact uniqueByPath_idem _ _
+  exact dedupItems_idem _
 
 
 /-! ## `group_imports` -/
@@ -1016,14 +1232,14 @@ theorem normalizeItem_path {cmp : Tree → Tree → Ordering} {it it' : Item}
 
 /-- `normalize` applied to its own result, top level. -/
 theorem normalizeItem_idem {cmp : Tree → Tree → Ordering} (tp : TotalPreorder cmp) (it it' : Item)
-    (h : normalizeItem cmp it = .ok it') (hok : okPath true it.tree.path = true)
+    (h : normalizeItem cmp it = .ok it') (hwf : wfPath true it.tree.path = true)
     (hne : it'.tree.path ≠ []) (hb : bareSelf it' = false) : normalizeItem cmp it' = .ok it' := by
   obtain ⟨hp, hv, ha, _⟩ := normalizeItem_path h
   have hbare : ¬(it.attrs.isSome = false ∧ it.vis.isSome = true ∧ it'.tree.path = [.slf none]) := by
     rintro ⟨h1, h2, h3⟩
     simp only [bareSelf, h3, ha, hv] at hb
     cases hat : it.attrs <;> simp_all
-  have := normPath_idem tp _ _ _ _ _ true hp hok hne hbare (pathSize it'.tree.path + 1) (by omega)
+  have := normPath_idem tp _ _ _ _ _ true hp hwf hne hbare (pathSize it'.tree.path + 1) (by omega)
   obtain ⟨⟨p⟩, v', a', c'⟩ := it'
   simp only [RF.Imports.Tree.path] at this hv ha
   subst hv ha
@@ -1031,10 +1247,10 @@ theorem normalizeItem_idem {cmp : Tree → Tree → Ordering} (tp : TotalPreorde
 
 /-- The result of `normalize` is read back as it is. -/
 theorem normalizeItem_reparse {cmp : Tree → Tree → Ordering} (it it' : Item)
-    (h : normalizeItem cmp it = .ok it') (hok : okPath true it.tree.path = true) :
+    (h : normalizeItem cmp it = .ok it') (hwf : wfPath true it.tree.path = true) :
     reparseTree it'.tree = it'.tree := by
   obtain ⟨hp, _⟩ := normalizeItem_path h
-  have := (normPath_ne cmp _ _ _ _ _ true hp hok).1
+  have := normPath_ne cmp _ _ _ _ _ true hp hwf
   obtain ⟨⟨p⟩, _, _, _⟩ := it'
   simp only [RF.Imports.Tree.path] at this
   simp [reparseTree, RF.Imports.Tree.path, reparsePath_ne p this]
@@ -1248,7 +1464,7 @@ theorem runTwice_of_fixed {cmp : Tree → Tree → Ordering} (tp : TotalPreorder
 theorem run_idem_preserve {cmp : Tree → Tree → Ordering} (tp : TotalPreorder cmp) (gt : GroupTactic)
     (reorder : Bool) (items normalized : List Item)
     (hn : mapE (normalizeItem cmp) items = .ok normalized)
-    (hok : ∀ it ∈ items, okPath true it.tree.path = true)
+    (hok : ∀ it ∈ items, wfPath true it.tree.path = true)
     (hb : ∀ it ∈ normalized, bareSelf it = false) :
     ∃ a, runTwice cmp .preserve gt reorder items = .ok (a, a) := by
   apply runTwice_of_fixed tp .preserve gt reorder items normalized normalized hn rfl
@@ -1311,7 +1527,7 @@ theorem normPath_fixedLast (cmp : Tree → Tree → Ordering) (fuel : Nat) (a v 
     simp only [fixedLast, List.getLast?_append, List.getLast?_singleton, Option.some_or] at h
     obtain ⟨al, rfl⟩ := (isSoleSelf_iff l).1 h
     rw [normStep_sortList_of a v rest _ (by simp) (by simp [soleSplice, displaysSelf])]
-    simp only [mapE, RF.Imports.Tree.path, normPath_selfTree, Except.map, stableSort, insertSorted]
+    simp [mapE, RF.Imports.Tree.path, normPath_selfTree, Except.map, stableSort, insertSorted]
   | slf al => simp [fixedLast] at h
   | ident n al => rw [normStep_plain a v rest _ rfl]
   | super al => rw [normStep_plain a v rest _ rfl]
@@ -1473,13 +1689,13 @@ theorem nestPath_eq_nil {p : List Seg} : nestPath p = [] ↔ p = [] := by
 the four steps of the next run leave it alone. -/
 theorem flattened_fixed {cmp : Tree → Tree → Ordering} (tp : TotalPreorder cmp) (g : Granularity)
     (items normalized : List Item) (hn : mapE (normalizeItem cmp) items = .ok normalized)
-    (hok : ∀ it ∈ items, okPath true it.tree.path = true)
+    (hok : ∀ it ∈ items, wfPath true it.tree.path = true)
     (hwfN : ∀ it ∈ normalized, wfPath true it.tree.path = true) :
     ∀ y ∈ flattenUseTrees g normalized,
       reparseTree y.tree = y.tree ∧ (y.tree.path ≠ [] → normalizeItem cmp y = .ok y) ∧
       flattenItem g y = [y] ∧ nestItem y = y := by
   intro y hy
-  have := uniqueByPath_sub _ _ y hy
+  have := dedupItems_nil_sub _ y hy
   simp only [List.mem_map, List.mem_flatMap] at this
   obtain ⟨x, ⟨nn, hnn, hx⟩, rfl⟩ := this
   have hflat := flattenItem_flat g nn (hwfN nn hnn) x hx
@@ -1489,7 +1705,7 @@ theorem flattened_fixed {cmp : Tree → Tree → Ordering} (tp : TotalPreorder c
       rcases flattenItem_cases g nn (hwfN nn hnn) x hx with rfl | ⟨hf, hi⟩
       · obtain ⟨it, hit, h⟩ := mapE_mem _ _ _ hn x hnn
         obtain ⟨hp, _⟩ := normalizeItem_path h
-        have := (normPath_ne cmp _ _ _ _ _ true hp (hok it hit)).1
+        have := normPath_ne cmp _ _ _ _ _ true hp (hok it hit)
         simpa [nestItem, RF.Imports.Tree.path] using nePath_nestPath _ this
       · simp only [nestItem, RF.Imports.Tree.path]
         exact nePath_of_fixedLast _ (by rw [dropLast_nestPath]; exact hi) (fixedLast_nestPath _ hf)
@@ -1578,10 +1794,13 @@ theorem normStep_done_ok {a v r : Bool} {path q : List Seg} (h : normStep a v pa
   | crate al => exact plain _ rfl h hok
   | glob => exact plain _ rfl h hok
 
-/-- `normalize` keeps a path as the parser builds it, without `{}`, such a path. -/
-theorem normPath_okPath (cmp : Tree → Tree → Ordering) :
+/-- For a path as the parser builds it **without `{}`** (`okPath`) `normalize` returns such a path again,
+and never the empty path for a nested tree: no element of a list is removed, the list arm does not
+re-enter. -/
+theorem normPath_ok_ne (cmp : Tree → Tree → Ordering) :
     ∀ (fuel : Nat) (a v : Bool) (path q : List Seg) (r : Bool),
-      normPath cmp fuel a v path = .ok q → okPath r path = true → okPath r q = true := by
+      normPath cmp fuel a v path = .ok q → okPath r path = true →
+      okPath r q = true ∧ (v = false → q ≠ []) := by
   intro fuel
   induction fuel with
   | zero => intro _ _ _ _ _ h; simp [normPath] at h
@@ -1594,7 +1813,7 @@ theorem normPath_okPath (cmp : Tree → Tree → Ordering) :
       cases st with
       | done q' =>
         simp only [hs, Except.ok.injEq] at h; subst h
-        exact normStep_done_ok hs hok
+        exact ⟨normStep_done_ok hs hok, (normStep_done_ne hs hok).2⟩
       | splice p =>
         simp only [hs] at h
         exact ih a v p q r h (normStep_splice_ok hs hok)
@@ -1604,7 +1823,17 @@ theorem normPath_okPath (cmp : Tree → Tree → Ordering) :
         split at h
         · simp at h
         · rename_i l2 hl2
+          -- every element stays non-empty: nothing is filtered out
+          have hK : l2.filter (fun t => !t.path.isEmpty) = l2 := by
+            apply List.filter_eq_self.2
+            intro t ht
+            obtain ⟨t0, ht0, hf⟩ := mapE_mem _ _ _ hl2 t ht
+            obtain ⟨qt, hqt, rfl⟩ := except_map_ok hf
+            have := (ih false false t0.path qt _ hqt (hel t0 ht0).2).2 rfl
+            simpa [RF.Imports.Tree.path] using this
+          rw [hK, mapE_length _ _ _ hl2, if_neg (Nat.lt_irrefl _)] at h
           simp only [Except.ok.injEq] at h; subst h
+          refine ⟨?_, fun _ => by simp⟩
           have hperm := stableSort_perm cmp l2
           have hne' : stableSort cmp l2 ≠ [] := by
             intro e
@@ -1618,57 +1847,19 @@ theorem normPath_okPath (cmp : Tree → Tree → Ordering) :
           obtain ⟨t0, ht0, hf⟩ := mapE_mem _ _ _ hl2 t ht2
           obtain ⟨qt, hqt, rfl⟩ := except_map_ok hf
           rw [okTree_iff]
-          exact ⟨(normPath_ne cmp _ _ _ _ _ _ hqt (hel t0 ht0).2).2 rfl,
-            ih false false t0.path qt _ hqt (hel t0 ht0).2⟩
+          have := ih false false t0.path qt _ hqt (hel t0 ht0).2
+          exact ⟨this.2 rfl, this.1⟩
+
+/-- `normalize` keeps a path as the parser builds it, without `{}`, such a path. -/
+theorem normPath_okPath (cmp : Tree → Tree → Ordering) (fuel : Nat) (a v : Bool) (path q : List Seg)
+    (r : Bool) (h : normPath cmp fuel a v path = .ok q) (hok : okPath r path = true) :
+    okPath r q = true := (normPath_ok_ne cmp fuel a v path q r h hok).1
 
 theorem normalizeItem_okPath {cmp : Tree → Tree → Ordering} (it it' : Item)
     (h : normalizeItem cmp it = .ok it') (hok : okPath true it.tree.path = true) :
     okPath true it'.tree.path = true :=
   normPath_okPath cmp _ _ _ _ _ true (normalizeItem_path h).1 hok
 
-
-/-! ### `unique()` -/
-
-theorem uniqueByPath_distinct : ∀ (xs seen : List Item),
-    (uniqueByPath xs seen).Pairwise (fun a b => a.tree ≠ b.tree) ∧
-      ∀ y ∈ uniqueByPath xs seen, ∀ s ∈ seen, s.tree ≠ y.tree
-  | [], _ => by simp [uniqueByPath]
-  | t :: ts, seen => by
-    simp only [uniqueByPath]
-    split
-    · exact uniqueByPath_distinct ts seen
-    · rename_i h
-      obtain ⟨ih1, ih2⟩ := uniqueByPath_distinct ts (seen ++ [t])
-      refine ⟨List.pairwise_cons.2 ⟨fun y hy => ih2 y hy t (by simp), ih1⟩, ?_⟩
-      intro y hy s hs
-      rcases List.mem_cons.1 hy with rfl | hy
-      · intro e
-        apply h
-        simp only [List.any_eq_true]
-        exact ⟨s, hs, by rw [e]; exact treeBEq_refl _⟩
-      · exact ih2 y hy s (by simp [hs])
-
-theorem uniqueByPath_of_distinct : ∀ (l seen : List Item),
-    l.Pairwise (fun a b => a.tree ≠ b.tree) → (∀ y ∈ l, ∀ s ∈ seen, s.tree ≠ y.tree) →
-    uniqueByPath l seen = l
-  | [], _, _, _ => rfl
-  | t :: ts, seen, hp, hs => by
-    have hnot : (seen.any fun s => treeBEq s.tree t.tree) = false := by
-      cases h : (seen.any fun s => treeBEq s.tree t.tree) with
-      | false => rfl
-      | true =>
-        simp only [List.any_eq_true] at h
-        obtain ⟨s, hs', he⟩ := h
-        exact absurd (treeBEq_eq _ _ he) (hs t (by simp) s hs')
-    simp only [uniqueByPath, hnot]
-    obtain ⟨hp1, hp2⟩ := List.pairwise_cons.1 hp
-    rw [uniqueByPath_of_distinct ts (seen ++ [t]) hp2]
-    · rfl
-    · intro y hy s hs'
-      rcases List.mem_append.1 hs' with h | h
-      · exact hs y (by simp [hy]) s h
-      · simp only [List.mem_singleton] at h; subst h
-        exact hp1 y hy
 
 theorem finish_flatten_perm (cmp : Tree → Tree → Ordering) (gt : GroupTactic) (reorder : Bool)
     (merged : List Item) : (finish cmp gt reorder merged).flatten.Perm merged := by
@@ -1697,12 +1888,12 @@ condition on `self`: after `nest_trailing_self` no item is the bare `use self;`.
 theorem run_idem_item {cmp : Tree → Tree → Ordering} (tp : TotalPreorder cmp) (gt : GroupTactic)
     (reorder : Bool) (items normalized : List Item)
     (hn : mapE (normalizeItem cmp) items = .ok normalized)
-    (hok : ∀ it ∈ items, okPath true it.tree.path = true) :
+    (hok : ∀ it ∈ items, wfPath true it.tree.path = true) :
     ∃ a, runTwice cmp .item gt reorder items = .ok (a, a) := by
   have hwfN : ∀ it ∈ normalized, wfPath true it.tree.path = true := by
     intro it' hit'
     obtain ⟨it, hit, h⟩ := mapE_mem _ _ _ hn it' hit'
-    exact okPath_wf (normalizeItem_okPath it it' h (hok it hit))
+    exact normPath_wf cmp _ _ _ _ _ true (normalizeItem_path h).1 (hok it hit)
   have hfix := flattened_fixed tp .item items normalized hn hok hwfN
   apply runTwice_of_fixed tp .item gt reorder items normalized (flattenUseTrees .item normalized) hn rfl
   · exact fun y hy => (hfix y hy).1
@@ -1712,14 +1903,15 @@ theorem run_idem_item {cmp : Tree → Tree → Ordering} (tp : TotalPreorder cmp
       flatMap_singleton_of _ _ (fun y hy => (hfix y (hl y hy).1).2.2.1)
     have h2 : l.map nestItem = l := by
       rw [List.map_congr_left (fun y hy => (hfix y (hl y hy).1).2.2.2)]; simp
-    have hd : l.Pairwise (fun a b => a.tree ≠ b.tree) := by
+    have hd : l.Pairwise NoRep := by
       rw [hle]
       apply List.Pairwise.sublist (written_sublist _)
-      exact ((finish_flatten_perm cmp gt reorder _).pairwise_iff (fun h => Ne.symm h)).2
-        (uniqueByPath_distinct _ []).1
+      exact ((finish_flatten_perm cmp gt reorder _).pairwise_iff (fun h => NoRep.symm h)).2
+        (dedupItems_pairwise _ [] List.Pairwise.nil)
     show Except.ok (flattenUseTrees .item l) = Except.ok l
     unfold flattenUseTrees
-    rw [h1, h2, uniqueByPath_of_distinct l [] hd (by simp)]
+    rw [h1, h2, dedupItems_of_pairwise l [] (by simpa using hd)]
+    simp
 
 
 /-- Generic `trim`: drop a `p`-prefix and a `p`-suffix. -/
